@@ -185,6 +185,7 @@ Proof.
         destruct H0 as (U & ->). apply upd_sa_bank in U. simpl. congruence.
       * intros prop s0 k row s2 B0 E0. apply share_step_frame in E0. destruct E0 as (_ & _ & _ & _ & _ & B & _). congruence.
     + unfold is_inflow_of, is_deposit_of. rewrite orb_false_r. unfold is_native in Nn. rewrite String.eqb_sym, Nn. reflexivity.
+  - lia.
 Qed.
 
 (* the escrow inequality itself: escrow - value(native) never decreases *)
